@@ -179,6 +179,8 @@ META["C10"] = dict(
     "non-trivial = the source parse was accepted.",
     gates={
         "mon.validate": g(2000, 20000),
+        "st.union_with_lenient_member_before_class": g(50, 500), "st.union_of_dataclasses_sharing_a_field": g(50, 500),
+        "mon.simple_fixed_points": g(80, 800), "mon.hostile_string_fixed_points": g(150, 150),
         "mon.reparse_object": g(2000, 20000),
         "mon.dump_parse_dump.yaml": g(500, 5000),
         "mon.dump_parse_dump.json": g(500, 5000),
@@ -187,7 +189,7 @@ META["C10"] = dict(
         "st.result_kind.enum": g(50, 500), "st.result_kind.tuple": g(50, 500), "st.result_kind.set": g(30, 300),
         "st.result_kind.reg": g(50, 500), "st.result_kind.dataclass": g(30, 300), "st.result_kind.class": g(10, 100),
         "st.result_kind.dict": g(50, 500), "st.result_kind.union": g(50, 500),
-        "st.prefix_named_class_options_with_defaults": g(40, 400),
+        "st.prefix_named_class_options_with_defaults": g(30, 400),
         "mon.sparse_class_spec_after_failed_parse": g(30, 300),
     },
     assumptions=["provenance keys are not configuration", "SecretStr is masked in dumps by design (C20) and excluded"],
